@@ -23,6 +23,7 @@ type Ctx struct {
 	rpcUnres   []string
 	reachMemo  map[*ssa.Function]map[*ssa.Function]bool
 	lw         *lockWorld
+	svcTypes   map[string]*types.Named
 }
 
 func newCtx(p *Program) *Ctx {
@@ -1342,4 +1343,115 @@ func fieldsUsedDeep(pkg *packages.Package, fd *ast.FuncDecl) (reads, writes map[
 		}
 	}
 	return
+}
+
+// ssaClosure: root and the functions of the same package it reaches through
+// static calls and the closures it creates.
+func ssaClosure(root *ssa.Function) map[*ssa.Function]bool {
+	seen := map[*ssa.Function]bool{root: true}
+	work := []*ssa.Function{root}
+	for len(work) > 0 {
+		f := work[0]
+		work = work[1:]
+		add := func(g *ssa.Function) {
+			if g != nil && !seen[g] && len(g.Blocks) > 0 && g.Package() == root.Package() {
+				seen[g] = true
+				work = append(work, g)
+			}
+		}
+		for _, a := range f.AnonFuncs {
+			add(a)
+		}
+		for _, ci := range callsIn(f) {
+			add(ci.Common().StaticCallee())
+		}
+	}
+	return seen
+}
+
+// constStringsReaching collects the string constants that can reach v:
+// through phis and local variables, through a parameter to the arguments at
+// the call sites inside `within`, and through a struct field to every value
+// stored into that field inside `within` (field-based: a table of names
+// handed to a loop is read like the calls it replaces). ok is false when
+// some source is not a constant.
+func constStringsReaching(v ssa.Value, within map[*ssa.Function]bool) (map[string]token.Pos, bool) {
+	out := map[string]token.Pos{}
+	seen := map[ssa.Value]bool{}
+	seenFld := map[*types.Var]bool{}
+	ok := true
+	var walk func(v ssa.Value, pos token.Pos, depth int)
+	walk = func(v ssa.Value, pos token.Pos, depth int) {
+		if depth > 12 {
+			ok = false
+			return
+		}
+		for _, lf := range phiLeaves(v) {
+			lf = stripLocal(lf)
+			if seen[lf] {
+				continue
+			}
+			seen[lf] = true
+			if k, isK := lf.(*ssa.Const); isK {
+				if k.Value != nil && k.Value.Kind() == constant.String {
+					p := pos
+					if k.Pos().IsValid() {
+						p = k.Pos()
+					}
+					out[constant.StringVal(k.Value)] = p
+				} else {
+					ok = false
+				}
+				continue
+			}
+			if p, isP := lf.(*ssa.Parameter); isP {
+				fn := p.Parent()
+				idx := -1
+				for i, q := range fn.Params {
+					if q == p {
+						idx = i
+					}
+				}
+				n := 0
+				for g := range within {
+					for _, ci := range callsIn(g) {
+						if ci.Common().StaticCallee() == fn && !ci.Common().IsInvoke() && idx >= 0 && idx < len(ci.Common().Args) {
+							n++
+							walk(ci.Common().Args[idx], ci.Pos(), depth+1)
+						}
+					}
+				}
+				if n == 0 {
+					ok = false
+				}
+				continue
+			}
+			if fld, _ := fieldLoad(lf); fld != nil {
+				if seenFld[fld] {
+					continue
+				}
+				seenFld[fld] = true
+				n := 0
+				for g := range within {
+					instrs(g, func(i ssa.Instruction) {
+						st, isSt := i.(*ssa.Store)
+						if !isSt {
+							return
+						}
+						if fa, isFA := st.Addr.(*ssa.FieldAddr); isFA && fieldOfAddr(fa) == fld {
+							n++
+							walk(st.Val, st.Pos(), depth+1)
+						}
+					})
+				}
+				if n == 0 {
+					ok = false
+				}
+				continue
+			}
+			ok = false
+		}
+	}
+	walk(v, token.NoPos, 0)
+	return out, ok
 }
